@@ -1244,6 +1244,27 @@ class SymEval:
 
     # ------------------------------------------------------------------ calls
     def ex_Call(self, e, frame):
+        tw = _takewhile_count(e)
+        if tw is not None:
+            # sum(1 for _ in itertools.takewhile(p, xs)) / len(list(itertools.takewhile(p, xs))): the length of the leading run, counted by the
+            # loop `n = 0; for x in xs: if not p(x): break; n += 1`
+            pred, xs = tw
+            self._tmp = getattr(self, "_tmp", 0) + 1
+            n_, x_ = f"__run{self._tmp}", f"__run{self._tmp}_x"
+            src = f"{n_} = 0\nfor {x_} in __xs__:\n    if not __p__({x_}):\n        break\n    {n_} += 1\n"
+            mod = ast.parse(src)
+
+            class _Sub(ast.NodeTransformer):
+                def visit_Name(self, n):
+                    return {"__xs__": xs, "__p__": pred}.get(n.id, n)
+            mod = _Sub().visit(mod)
+            own = {id(c) for root in (xs, pred) for c in ast.walk(root)}
+            for st_ in mod.body:
+                for n in ast.walk(st_):
+                    if id(n) not in own:
+                        ast.copy_location(n, e)
+                self.exec_stmt(st_, frame)
+            return frame.lookup(n_)
         # receiver / callee
         recv = None
         method = None
@@ -1410,6 +1431,12 @@ class SymEval:
             return ("tuple", tuple(self.call(args[0], [x], [], node, frame) for x in args[1][1]))  # map over a literal sequence, element by element
         if name == "zip" and len(args) >= 2 and not kwargs and all(lit(a_) for a_ in args) and len({len(a_[1]) for a_ in args}) == 1:
             return ("tuple", tuple(("tuple", tuple(a_[1][i] for a_ in args)) for i in range(len(args[0][1]))))
+        if name == "zip" and len(args) >= 2 and not kwargs and all(a_[0] == "comp" and a_[1] == "list" and len(a_[3]) == 1 for a_ in args) and len({(a_[3], a_[4]) for a_ in args}) == 1:
+            # lists filled side by side in one loop, zipped back together: the list of the tuples (same generator, same element)
+            src_ = args[0][3][0][1]
+            xs_ = {x for a_ in args for x in T.walk(a_[2]) if x[0] == "elem" and x[1] == src_}
+            if len(xs_) <= 1:
+                return ("comp", "list", ("tuple", tuple(a_[2] for a_ in args)), args[0][3], args[0][4])
         if name == "dict" and len(args) == 1 and not kwargs and lit(args[0]) and all(x[0] == "tuple" and len(x[1]) == 2 for x in args[0][1]):
             return ("dict", tuple((x[1][0], x[1][1]) for x in args[0][1]))
         if name == "dataclasses.replace" and len(args) == 1 and all(k != "**" for k, _ in kwargs):
@@ -2067,6 +2094,23 @@ def _counter_while_as_for(st: ast.While, frame):
     ast.copy_location(f, st)
     ast.fix_missing_locations(f)
     return f
+
+
+def _takewhile_count(e: ast.Call):
+    """(p, xs) if e is `sum(1 for _ in itertools.takewhile(p, xs))` or `len(list(itertools.takewhile(p, xs)))`, else None."""
+    def tw(c):
+        if isinstance(c, ast.Call) and len(c.args) == 2 and not c.keywords and (_dotted(c.func) or "").split(".")[-1] == "takewhile":
+            return c.args[0], c.args[1]
+        return None
+    if not (isinstance(e.func, ast.Name) and len(e.args) == 1 and not e.keywords):
+        return None
+    a = e.args[0]
+    if e.func.id == "sum" and isinstance(a, ast.GeneratorExp) and isinstance(a.elt, ast.Constant) and a.elt.value == 1 and len(a.generators) == 1 \
+            and not a.generators[0].ifs and isinstance(a.generators[0].target, ast.Name):
+        return tw(a.generators[0].iter)
+    if e.func.id == "len" and isinstance(a, ast.Call) and isinstance(a.func, ast.Name) and a.func.id in ("list", "tuple") and len(a.args) == 1 and not a.keywords:
+        return tw(a.args[0])
+    return None
 
 
 def _manual_counter_as_enumerate(st: ast.For, frame):
